@@ -205,3 +205,60 @@ def gen_concrete(rng, size=8, depth=3):
         body += g.stmt(depth, False, "    ")
     body.append(f"    return {g.expr(2)}")
     return "def f(x, y, box):\n" + "\n".join(body) + "\n"
+
+
+# --------------------------------------------------------------------------- systematic nesting (G5c)
+def systematic():
+    """Every combination of an outer compound statement, an inner compound statement placed in
+    the outer's body or else clause, and a jump statement (break / continue / return / none)
+    placed in the inner's body, in its else clause, or inside an `if` in its else clause.
+    Atoms are oracle calls; programs that would be syntactically invalid (break outside a
+    loop) are skipped."""
+    import itertools
+    import ast as _ast
+    outers = ["if", "ifelse", "while", "whileelse", "for", "forelse"]
+    places = ["body", "else"]
+    jumps = ["break", "continue", "return o.a(90)", None]
+    spots = ["body", "else", "if-in-else", "if-in-body"]
+    out = []
+
+    def compound(kind, k, body, orelse, ind):
+        pad = " " * ind
+        head = {"if": f"{pad}if o.a({k}):", "ifelse": f"{pad}if o.a({k}):", "while": f"{pad}while o.a({k}):",
+                "whileelse": f"{pad}while o.a({k}):", "for": f"{pad}for y in o.a({k}):", "forelse": f"{pad}for y in o.a({k}):"}[kind]
+        lines = [head] + body
+        if kind in ("ifelse", "whileelse", "forelse"):
+            lines += [f"{pad}else:"] + orelse
+        return lines
+    for outer, place, inner, jump, spot in itertools.product(outers, places, outers, jumps, spots):
+        if place == "else" and outer in ("if", "while", "for"):
+            continue
+        if spot in ("else", "if-in-else") and inner in ("if", "while", "for"):
+            continue
+        ind = 12
+        pad = " " * ind
+        jl = [] if jump is None else [f"{pad}{jump}"]
+        ib = [f"{pad}z = o.a(30, z)"]
+        ie = [f"{pad}z = o.a(31, z)"]
+        if spot == "body":
+            ib = ib + jl
+        elif spot == "else":
+            ie = ie + jl
+        elif spot == "if-in-else":
+            ie = [f"{pad}if o.a(32):"] + ([f"    {j}" for j in jl] or [f"{pad}    pass"]) + ie
+        else:
+            ib = [f"{pad}if o.a(33):"] + ([f"    {j}" for j in jl] or [f"{pad}    pass"]) + ib
+        inner_lines = compound(inner, 20, ib, ie, 8)
+        filler = ["        z = o.a(10, z)"]
+        if place == "body":
+            ob, oe = inner_lines + filler, ["        z = o.a(11)"]
+        else:
+            ob, oe = ["        z = o.a(12, z)"], inner_lines + filler
+        prog = ["def f(o, x, y):", "    z = None"] + compound(outer, 1, ob, oe, 4) + ["    return o.a(99, z)"]
+        src = "\n".join(prog) + "\n"
+        try:
+            compile(src, "<sys>", "exec")
+        except SyntaxError:
+            continue
+        out.append(src)
+    return out
